@@ -95,6 +95,7 @@ func c15Doc(title, h1, h2, markup string) string {
 
 func c15Enumerate(tier string, emit func(*eng.Case)) {
 	crossEmit("C15", tier, "xtitle", 1, emit)
+	emit = withDecor(decorEvery(tier), emit)
 	maxWordsAll, maxWords := 2, 3
 	if tier == "thorough" {
 		maxWordsAll, maxWords = 3, 4
@@ -264,9 +265,9 @@ func init() {
 		Prepare:   func(tier string) { CrossCorpus(tier) },
 		Bounds: func(tier string) map[string]any {
 			if tier == "thorough" {
-				return map[string]any{"max_words": 4, "max_words_full_variants": 3, "words": len(c15Words), "separators": len(c15Seps)}
+				return map[string]any{"decorated_variants": decorBound(tier), "max_words": 4, "max_words_full_variants": 3, "words": len(c15Words), "separators": len(c15Seps)}
 			}
-			return map[string]any{"max_words": 3, "max_words_full_variants": 2, "words": len(c15Words), "separators": len(c15Seps)}
+			return map[string]any{"decorated_variants": decorBound(tier), "max_words": 3, "max_words_full_variants": 2, "words": len(c15Words), "separators": len(c15Seps)}
 		},
 	})
 }
